@@ -1,0 +1,234 @@
+//go:build verif
+
+// Contracts for reassembler.go, read by the verifier in /verif (build tag
+// verif). Comments only; no code is added to the package.
+//
+// Clause tags [Cnn] attribute a clause to a property of /verif/properties.jsonl.
+
+package libaudit
+
+// The Stream is the environment: its calls are logged in the ghost trace
+// envlog (kind, scalar arguments), it returns nothing and changes nothing the
+// verified code can read (assumption: a Stream does not mutate the slices it
+// is handed; re-entrant calls are separate, individually verified operations).
+//
+//@ env libaudit.Stream.ReassemblyComplete
+//@ log
+//@ env libaudit.Stream.EventsLost
+//@ log
+
+// ---------------------------------------------------------------------------
+// Notation: lo(s), hi(s) are the absolute bounds of slice s inside its backing
+// array and at(s, k) the element at absolute index k, so that s[i] is
+// at(s, lo(s)+i). Quantifying over absolute positions keeps the invariants
+// stable under re-slicing (l.seqs = l.seqs[1:]) and in-place appends.
+//
+// Representation invariant of the event table (holds on every history).
+//
+//@ pred BaseLen(l *eventList) := l.events != nil && len(l.events) == len(l.seqs)
+//@ pred BaseDistinct(l *eventList) := forall j, k int :: lo(l.seqs) <= j && j < k && k < hi(l.seqs) ==> at(l.seqs, j) != at(l.seqs, k)
+//@ pred BaseMember(l *eventList) := forall k int :: lo(l.seqs) <= k && k < hi(l.seqs) ==> at(l.seqs, k) in l.events
+//@ pred BaseAlloc(l *eventList) := forall s sequenceNum :: s in l.events ==> l.events[s] != nil && allocated(l.events[s])
+//@ pred BaseInj(l *eventList) := forall s, t sequenceNum :: s in l.events && t in l.events && s != t ==> l.events[s] != l.events[t]
+//@ pred Base(l *eventList) := BaseLen(l) && BaseDistinct(l) && BaseMember(l) && BaseAlloc(l) && BaseInj(l)
+//
+// Every buffered event holds at least one record; all its records carry the
+// event's sequence number and none is an EOE.
+//@ pred MsgsElems(l *eventList) := forall s sequenceNum :: s in l.events ==> len(l.events[s].msgs) >= 1
+//@   && (forall k int :: lo(l.events[s].msgs) <= k && k < hi(l.events[s].msgs) ==> at(l.events[s].msgs, k) != nil
+//@        && at(l.events[s].msgs, k).Sequence == s && at(l.events[s].msgs, k).RecordType != auparse.AUDIT_EOE)
+// The records of different events live in different backing arrays.
+//@ pred MsgsDisj(l *eventList) := (forall s sequenceNum :: s in l.events ==> allocated(l.events[s].msgs) && base(l.events[s].msgs) != 0)
+//@   && (forall s, t sequenceNum :: s in l.events && t in l.events && s != t ==> base(l.events[s].msgs) != base(l.events[t].msgs))
+//@ pred MsgsOK(l *eventList) := MsgsElems(l) && MsgsDisj(l)
+
+// ---------------------------------------------------------------------------
+// C03 oracle, written from the property statement (not from the code): walking
+// the evicted sequence numbers a[lo0], a[lo0+1], ... with a high-water mark hw
+// (unset before the first delivery). A number that is after hw in roll-over
+// order adds the numbers skipped in between and becomes the new mark; a
+// duplicate or late number adds nothing and leaves the mark alone.
+//
+//@ spec dist(s sequenceNum, hw sequenceNum) int := if s >= hw then s - hw else s - hw + 4294967296
+//@ spec after(s sequenceNum, hw sequenceNum) bool := s != hw && dist(s, hw) <= 16777215
+//@ rec fHW(p int, a []sequenceNum, lo0 int, hw0 sequenceNum, set0 bool) sequenceNum :=
+//@   if p <= lo0 then hw0 else (if !(set0 || p - 1 > lo0) || after(at(a, p - 1), fHW(p - 1, a, lo0, hw0, set0)) then at(a, p - 1) else fHW(p - 1, a, lo0, hw0, set0))
+//@ rec fLost(p int, a []sequenceNum, lo0 int, hw0 sequenceNum, set0 bool) int :=
+//@   if p <= lo0 then 0 else fLost(p - 1, a, lo0, hw0, set0) + (if (set0 || p - 1 > lo0) && after(at(a, p - 1), fHW(p - 1, a, lo0, hw0, set0)) then dist(at(a, p - 1), fHW(p - 1, a, lo0, hw0, set0)) - 1 else 0)
+
+// C02: roll-over aware order; Sorted speaks about absolute positions.
+//@ spec less(a sequenceNum, b sequenceNum) bool := if a - b > 16777215 || b - a > 16777215 then a > b else a < b
+//@ pred Sorted(l *eventList) := forall j, k int :: lo(l.seqs) <= j && j < k && k < hi(l.seqs) ==> less(at(l.seqs, j), at(l.seqs, k))
+//@ pred InWindow(l *eventList, w sequenceNum) := forall k int :: lo(l.seqs) <= k && k < hi(l.seqs) ==> (at(l.seqs, k) - w) mod 4294967296 < 16777216
+
+// C10/C19: why an event may be evicted.
+//@ spec terminating(t auparse.AuditMessageType) bool := t == auparse.AUDIT_PROCTITLE || t <= auparse.AUDIT_LAST_DAEMON || t >= auparse.AUDIT_ANOM_LOGIN_FAILURES
+
+// ---------------------------------------------------------------------------
+// CleanUp evicts a prefix of the table: result0[i] is the event that was at
+// position i, the table keeps the rest in the same order (it is re-sliced, the
+// backing array is untouched), nothing else changes.
+//
+//@ func (*libaudit.eventList).CleanUp
+//@ requires Base(l)
+//@ requires len(l.seqs) <= 274877906944 -- domain: fewer than 2^38 buffered events, so that the int counter cannot wrap
+//@ modifies l.seqs, l.lastSeq, l.hasLast, l.Mutex, mapOf(l.events), elemsOf(*event), alloc, clock
+//@ ensures[C01] Base(l)
+//@ ensures[C01] len(result0) <= old(len(l.seqs)) && len(l.seqs) == old(len(l.seqs)) - len(result0)
+//@ ensures[C01] base(l.seqs) == old(base(l.seqs)) && lo(l.seqs) == old(lo(l.seqs)) + len(result0)
+//@ ensures[C01] forall i int :: 0 <= i && i < len(result0) ==> result0[i] == old(l.events[l.seqs[i]])
+//@ ensures[C01] forall k int :: lo(result0) <= k && k < hi(result0) ==> at(result0, k) != nil
+//@ ensures[C01] forall s sequenceNum :: s in l.events ==> old(s in l.events) && l.events[s] == old(l.events[s])
+//@ ensures[C10] len(l.seqs) > 0 ==> !l.events[l.seqs[0]].complete && len(l.seqs) <= l.maxSize
+//@ ensures[C19] len(l.seqs) > 0 ==> !(clock() > l.events[l.seqs[0]].expireTime)
+//@ ensures[C10] forall i int :: 0 <= i && i < len(result0) ==> result0[i].complete || old(len(l.seqs)) - i > l.maxSize || result0[i].expireTime < clock()
+//@ ensures[C03] result1 == fLost(lo(l.seqs), old(l.seqs), old(lo(l.seqs)), old(l.lastSeq), old(l.hasLast)) && result1 >= 0
+//@ ensures[C03] l.lastSeq == fHW(lo(l.seqs), old(l.seqs), old(lo(l.seqs)), old(l.lastSeq), old(l.hasLast))
+//@ ensures[C03] l.hasLast == (old(l.hasLast) || len(result0) > 0)
+//@ ensures[C11] !held(l.Mutex)
+//@ loop 0 invariant Base(l)
+//@ loop 0 invariant len(evicted) + len(l.seqs) == old(len(l.seqs))
+//@ loop 0 invariant base(l.seqs) == old(base(l.seqs)) && lo(l.seqs) == old(lo(l.seqs)) + len(evicted)
+//@ loop 0 invariant forall k int :: lo(evicted) <= k && k < hi(evicted) ==> at(evicted, k) == old(l.events[at(l.seqs, lo(l.seqs) + (k - lo(evicted)))])
+//@ loop 0 invariant forall s sequenceNum :: s in l.events ==> old(s in l.events) && l.events[s] == old(l.events[s])
+//@ loop 0 invariant forall k int :: lo(evicted) <= k && k < hi(evicted) ==> at(evicted, k) != nil
+//@ loop 0 invariant[C10] forall k int :: lo(evicted) <= k && k < hi(evicted) ==> at(evicted, k).complete || old(len(l.seqs)) - (k - lo(evicted)) > l.maxSize || at(evicted, k).expireTime < clock()
+//@ loop 0 invariant[C03] lost == fLost(lo(l.seqs), old(l.seqs), old(lo(l.seqs)), old(l.lastSeq), old(l.hasLast)) && lost >= 0 && lost <= len(evicted) * 16777215
+//@ loop 0 invariant[C03] l.lastSeq == fHW(lo(l.seqs), old(l.seqs), old(lo(l.seqs)), old(l.lastSeq), old(l.hasLast))
+//@ loop 0 invariant[C03] l.hasLast == (old(l.hasLast) || len(evicted) > 0)
+//@ loop 0 invariant held(l.Mutex)
+//@ loop 0 decreases len(l.seqs)
+
+// ---------------------------------------------------------------------------
+// Clear evicts everything (Close).
+//
+//@ func (*libaudit.eventList).Clear
+//@ requires Base(l)
+//@ requires len(l.seqs) <= 274877906944
+//@ modifies l.seqs, l.lastSeq, l.hasLast, l.Mutex, mapOf(l.events), elemsOf(*event), alloc
+//@ ensures[C01] Base(l) && len(l.seqs) == 0 && len(result0) == old(len(l.seqs))
+//@ ensures[C01] forall i int :: 0 <= i && i < len(result0) ==> result0[i] == old(l.events[l.seqs[i]])
+//@ ensures[C01] forall k int :: lo(result0) <= k && k < hi(result0) ==> at(result0, k) != nil
+//@ ensures[C03] result1 == fLost(old(hi(l.seqs)), old(l.seqs), old(lo(l.seqs)), old(l.lastSeq), old(l.hasLast)) && result1 >= 0
+//@ ensures[C03] l.lastSeq == fHW(old(hi(l.seqs)), old(l.seqs), old(lo(l.seqs)), old(l.lastSeq), old(l.hasLast))
+//@ ensures[C03] l.hasLast == (old(l.hasLast) || len(result0) > 0)
+//@ ensures[C11] !held(l.Mutex)
+//@ loop 0 invariant Base(l)
+//@ loop 0 invariant len(evicted) + len(l.seqs) == old(len(l.seqs))
+//@ loop 0 invariant base(l.seqs) == old(base(l.seqs)) && lo(l.seqs) == old(lo(l.seqs)) + len(evicted)
+//@ loop 0 invariant forall k int :: lo(evicted) <= k && k < hi(evicted) ==> at(evicted, k) == old(l.events[at(l.seqs, lo(l.seqs) + (k - lo(evicted)))])
+//@ loop 0 invariant forall k int :: lo(evicted) <= k && k < hi(evicted) ==> at(evicted, k) != nil
+//@ loop 0 invariant[C03] lost == fLost(lo(l.seqs), old(l.seqs), old(lo(l.seqs)), old(l.lastSeq), old(l.hasLast)) && lost >= 0 && lost <= len(evicted) * 16777215
+//@ loop 0 invariant[C03] l.lastSeq == fHW(lo(l.seqs), old(l.seqs), old(lo(l.seqs)), old(l.lastSeq), old(l.hasLast))
+//@ loop 0 invariant[C03] l.hasLast == (old(l.hasLast) || len(evicted) > 0)
+//@ loop 0 invariant held(l.Mutex)
+//@ loop 0 decreases len(l.seqs)
+
+// ---------------------------------------------------------------------------
+// The sorter. Less is the roll-over aware comparison of the specification;
+// sort.Sort is assumed to leave no inversion with respect to Less when all
+// elements lie in one 2^24 window (where Less is a strict total order: lemma
+// less_total_order_in_window in /verif/lemmas/reassembler_history.smt2).
+//
+//@ func (libaudit.sequenceNumSlice).Less
+//@ requires 0 <= i && i < len(p) && 0 <= j && j < len(p)
+//@ pure
+//@ ensures[C02] result0 == less(p[i], p[j])
+//
+//@ pred sortPost_sequenceNumSlice(s sequenceNumSlice, w sequenceNum) :=
+//@   (forall k int :: lo(s) <= k && k < hi(s) ==> (at(s, k) - w) mod 4294967296 < 16777216)
+//@   ==> (forall j, k int :: lo(s) <= j && j < k && k < hi(s) ==> !less(at(s, k), at(s, j)))
+
+// ---------------------------------------------------------------------------
+// Put files one record.
+//
+//@ pred SameEvent(e *event) := e.complete == old(e.complete) && e.expireTime == old(e.expireTime)
+//@   && len(e.msgs) == old(len(e.msgs)) && lo(e.msgs) == old(lo(e.msgs))
+//@   && (forall k int :: lo(e.msgs) <= k && k < hi(e.msgs) ==> at(e.msgs, k) == old(at(e.msgs, k)))
+//
+//@ func (*libaudit.eventList).Put
+//@ forall-params w sequenceNum
+//@ requires Base(l) && MsgsOK(l) && msg != nil
+//@ modifies l.seqs, l.Mutex, mapOf(l.events), elemsOf(sequenceNum), event.msgs, event.complete, event.expireTime, elemsOf(*auparse.AuditMessage), alloc, clock
+//@ ensures[C01] BaseLen(l)
+//@ ensures[C01] BaseAlloc(l)
+//@ ensures[C01] BaseInj(l)
+//@ ensures[C01] old(msg.Sequence in l.events) || msg.RecordType == auparse.AUDIT_EOE ==> BaseDistinct(l)
+//@ ensures[C01] !old(msg.Sequence in l.events) && msg.RecordType != auparse.AUDIT_EOE ==> BaseDistinct(l)
+//@ ensures[C01] old(msg.Sequence in l.events) || msg.RecordType == auparse.AUDIT_EOE ==> BaseMember(l)
+//@ ensures[C01] !old(msg.Sequence in l.events) && msg.RecordType != auparse.AUDIT_EOE ==> BaseMember(l)
+//@ ensures[C01] msg.RecordType == auparse.AUDIT_EOE ==> MsgsElems(l)
+//@ ensures[C01] msg.RecordType != auparse.AUDIT_EOE && old(msg.Sequence in l.events) ==> MsgsElems(l)
+//@ ensures[C01] msg.RecordType != auparse.AUDIT_EOE && !old(msg.Sequence in l.events) ==> MsgsElems(l)
+//@ ensures[C01] msg.RecordType == auparse.AUDIT_EOE ==> MsgsDisj(l)
+//@ ensures[C01] msg.RecordType != auparse.AUDIT_EOE && old(msg.Sequence in l.events) ==> MsgsDisj(l)
+//@ ensures[C01] msg.RecordType != auparse.AUDIT_EOE && !old(msg.Sequence in l.events) ==> MsgsDisj(l)
+//@ ensures[C01] forall s sequenceNum :: old(s in l.events) ==> s in l.events && l.events[s] == old(l.events[s])
+//@ ensures[C01] forall s sequenceNum :: s in l.events && s != msg.Sequence ==> old(s in l.events)
+//@ ensures[C01] msg.RecordType == auparse.AUDIT_EOE ==> (forall s sequenceNum :: old(s in l.events) && s != msg.Sequence ==> SameEvent(l.events[s]))
+//@ ensures[C01] msg.RecordType != auparse.AUDIT_EOE && old(msg.Sequence in l.events) ==> (forall s sequenceNum :: old(s in l.events) && s != msg.Sequence ==> SameEvent(l.events[s]))
+//@ ensures[C01] msg.RecordType != auparse.AUDIT_EOE && !old(msg.Sequence in l.events) ==> (forall s sequenceNum :: old(s in l.events) && s != msg.Sequence ==> SameEvent(l.events[s]))
+//@ ensures[C01] msg.RecordType == auparse.AUDIT_EOE ==> (msg.Sequence in l.events) == old(msg.Sequence in l.events) && len(l.seqs) == old(len(l.seqs))
+//@ ensures[C01] msg.RecordType == auparse.AUDIT_EOE && old(msg.Sequence in l.events) ==> len(l.events[msg.Sequence].msgs) == old(len(l.events[msg.Sequence].msgs)) && lo(l.events[msg.Sequence].msgs) == old(lo(l.events[msg.Sequence].msgs)) && (forall k int :: lo(l.events[msg.Sequence].msgs) <= k && k < hi(l.events[msg.Sequence].msgs) ==> at(l.events[msg.Sequence].msgs, k) == old(at(l.events[msg.Sequence].msgs, k)))
+//@ ensures[C01] msg.RecordType != auparse.AUDIT_EOE ==> msg.Sequence in l.events && at(l.events[msg.Sequence].msgs, hi(l.events[msg.Sequence].msgs) - 1) == msg
+//@ ensures[C01] msg.RecordType != auparse.AUDIT_EOE && old(msg.Sequence in l.events) ==> len(l.seqs) == old(len(l.seqs)) && len(l.events[msg.Sequence].msgs) == old(len(l.events[msg.Sequence].msgs)) + 1 && lo(l.events[msg.Sequence].msgs) == old(lo(l.events[msg.Sequence].msgs)) && (forall k int :: old(lo(l.events[msg.Sequence].msgs)) <= k && k < old(hi(l.events[msg.Sequence].msgs)) ==> at(l.events[msg.Sequence].msgs, k) == old(at(l.events[msg.Sequence].msgs, k)))
+//@ ensures[C01] msg.RecordType != auparse.AUDIT_EOE && !old(msg.Sequence in l.events) ==> len(l.seqs) == old(len(l.seqs)) + 1 && fresh(l.events[msg.Sequence]) && len(l.events[msg.Sequence].msgs) == 1
+//@ ensures[C10] msg.RecordType != auparse.AUDIT_EOE ==> l.events[msg.Sequence].complete == ((old(msg.Sequence in l.events) && old(l.events[msg.Sequence].complete)) || terminating(msg.RecordType))
+//@ ensures[C10] msg.RecordType == auparse.AUDIT_EOE && old(msg.Sequence in l.events) ==> l.events[msg.Sequence].complete
+//@ ensures[C19] msg.RecordType != auparse.AUDIT_EOE && !old(msg.Sequence in l.events) ==> l.events[msg.Sequence].expireTime == clock() + l.timeout
+//@ ensures[C19] old(msg.Sequence in l.events) ==> l.events[msg.Sequence].expireTime == old(l.events[msg.Sequence].expireTime)
+//@ ensures[C02] (old(msg.Sequence in l.events) || msg.RecordType == auparse.AUDIT_EOE) && old(Sorted(l)) ==> Sorted(l)
+//@ ensures[C02] !old(msg.Sequence in l.events) && msg.RecordType != auparse.AUDIT_EOE && InWindow(l, w) ==> Sorted(l)
+//@ ensures[C11] !held(l.Mutex)
+
+// ---------------------------------------------------------------------------
+// callback hands the evicted events to the Stream, in order, then reports the loss.
+//
+//@ func (*libaudit.Reassembler).callback
+//@ requires r.stream != nil
+//@ requires forall k int :: lo(events) <= k && k < hi(events) ==> at(events, k) != nil
+//@ modifies envlog
+//@ ensures[C01] envlen() == old(envlen()) + len(events) + (if lost > 0 then 1 else 0)
+//@ ensures[C01] forall i int :: 0 <= i && i < len(events) ==> envkind(old(envlen()) + i) == envkindOf(libaudit.Stream.ReassemblyComplete) && envarg(old(envlen()) + i, 0) == base(events[i].msgs) && envarg(old(envlen()) + i, 1) == lo(events[i].msgs) && envarg(old(envlen()) + i, 2) == len(events[i].msgs)
+//@ ensures[C03] lost > 0 ==> envkind(envlen() - 1) == envkindOf(libaudit.Stream.EventsLost) && envarg(envlen() - 1, 0) == lost
+//@ ensures[C01] forall i int :: 0 <= i && i < old(envlen()) ==> envkind(i) == old(envkind(i)) && (forall a int :: envarg(i, a) == old(envarg(i, a)))
+//@ loop 0 invariant -1 <= rangeindex && rangeindex < len(events)
+//@ loop 0 invariant envlen() == old(envlen()) + rangeindex + 1
+//@ loop 0 invariant forall i int :: 0 <= i && i <= rangeindex ==> envkind(old(envlen()) + i) == envkindOf(libaudit.Stream.ReassemblyComplete) && envarg(old(envlen()) + i, 0) == base(events[i].msgs) && envarg(old(envlen()) + i, 1) == lo(events[i].msgs) && envarg(old(envlen()) + i, 2) == len(events[i].msgs)
+//@ loop 0 invariant forall i int :: 0 <= i && i < old(envlen()) ==> envkind(i) == old(envkind(i)) && (forall a int :: envarg(i, a) == old(envarg(i, a)))
+
+// ---------------------------------------------------------------------------
+// The public operations.
+//
+//@ func libaudit.NewReassembler
+//@ requires maxInFlight >= 0 -- the property's domain (a negative capacity makes make() panic)
+//@ modifies alloc
+//@ ensures[C19] isNil(stream) ==> result0 == nil && result1 != nil
+//@ ensures[C19] !isNil(stream) ==> result1 == nil && fresh(result0) && result0.closed == 0 && result0.stream == stream && result0.list != nil
+//@ ensures[C19] !isNil(stream) ==> Base(result0.list) && len(result0.list.seqs) == 0 && result0.list.maxSize == maxInFlight && result0.list.timeout == timeout && !result0.list.hasLast && !held(result0.list.Mutex)
+//@ ensures[C19] envlen() == old(envlen())
+//
+//@ func (*libaudit.Reassembler).PushMessage
+//@ requires r.list != nil && r.stream != nil && Base(r.list) && MsgsOK(r.list) && len(r.list.seqs) < 274877906944 && !held(r.list.Mutex)
+//@ modifies r.list.seqs, r.list.lastSeq, r.list.hasLast, r.list.Mutex, mapOf(r.list.events), elemsOf(sequenceNum), elemsOf(*event), event.msgs, event.complete, event.expireTime, elemsOf(*auparse.AuditMessage), alloc, clock, envlog
+//@ ensures[C01] Base(r.list) && MsgsOK(r.list)
+//@ ensures[C01] msg == nil ==> envlen() == old(envlen()) && len(r.list.seqs) == old(len(r.list.seqs))
+//@ ensures[C10] msg != nil ==> len(r.list.seqs) <= r.list.maxSize || len(r.list.seqs) == 0
+//@ ensures[C10] msg != nil && len(r.list.seqs) > 0 ==> !r.list.events[r.list.seqs[0]].complete
+//@ ensures[C19] msg != nil && len(r.list.seqs) > 0 ==> !(clock() > r.list.events[r.list.seqs[0]].expireTime)
+//@ ensures[C11] !held(r.list.Mutex)
+//
+//@ func (*libaudit.Reassembler).Maintain
+//@ requires r.list != nil && r.stream != nil && Base(r.list) && len(r.list.seqs) < 274877906944 && !held(r.list.Mutex)
+//@ modifies r.list.seqs, r.list.lastSeq, r.list.hasLast, r.list.Mutex, mapOf(r.list.events), elemsOf(*event), alloc, clock, envlog
+//@ ensures[C19] old(r.closed) == 1 ==> result0 != nil && envlen() == old(envlen()) && len(r.list.seqs) == old(len(r.list.seqs))
+//@ ensures[C19] old(r.closed) != 1 ==> result0 == nil && Base(r.list)
+//@ ensures[C19] old(r.closed) != 1 && len(r.list.seqs) > 0 ==> !(clock() > r.list.events[r.list.seqs[0]].expireTime) && !r.list.events[r.list.seqs[0]].complete
+//@ ensures[C11] !held(r.list.Mutex)
+//
+//@ func (*libaudit.Reassembler).Close
+//@ requires r.list != nil && r.stream != nil && Base(r.list) && len(r.list.seqs) < 274877906944 && !held(r.list.Mutex)
+//@ modifies r.closed, r.list.seqs, r.list.lastSeq, r.list.hasLast, r.list.Mutex, mapOf(r.list.events), elemsOf(*event), alloc, envlog
+//@ ensures[C19] old(r.closed) == 0 ==> result0 == nil && r.closed == 1 && len(r.list.seqs) == 0 && envlen() >= old(envlen()) + old(len(r.list.seqs))
+//@ ensures[C19] old(r.closed) != 0 ==> result0 != nil && r.closed == old(r.closed) && envlen() == old(envlen()) && len(r.list.seqs) == old(len(r.list.seqs))
+//@ ensures[C11] !held(r.list.Mutex)
